@@ -327,9 +327,9 @@ fn check_open(ctx: &Ctx, c: &OpenCase) -> PResult {
 
 pub fn props() -> Vec<(Box<dyn PropDyn>, u32, u32)> {
     vec![
-        (Box::new(Prop::new("srs", srs_case, check_srs).shrink(100)), 160, 2000),
-        (Box::new(Prop::new("commit", commit_case, check_commit).shrink(300)), 800, 12000),
-        (Box::new(Prop::new("open", open_case, check_open).shrink(200)), 600, 12000),
+        (Box::new(Prop::new("srs", srs_case, check_srs).shrink(100)), 400, 4000),
+        (Box::new(Prop::new("commit", commit_case, check_commit).shrink(300)), 4000, 40000),
+        (Box::new(Prop::new("open", open_case, check_open).shrink(200)), 2400, 30000),
     ]
 }
 
